@@ -12,6 +12,7 @@ import (
 	"sync"
 	"time"
 
+	"github.com/ldclabs/cose/cose"
 	"github.com/ldclabs/cose/cwt"
 	"github.com/ldclabs/cose/iana"
 	"github.com/ldclabs/cose/key"
@@ -227,6 +228,50 @@ func main() {
 			fmt.Printf("MISMATCH task=cold-factories count=%d\n", coldBad)
 		}
 	}
+
+	// message level, library-chosen nonces (7, 12 and 13 bytes) through one shared Encryptor; each result is decrypted
+	// again and the nonces one goroutine draws must all differ
+	for _, alg := range []int{iana.AlgorithmA128GCM, iana.AlgorithmAES_CCM_16_64_128, iana.AlgorithmAES_CCM_64_64_128, iana.AlgorithmChaCha20Poly1305} {
+		var k key.Key
+		switch alg {
+		case iana.AlgorithmA128GCM:
+			k = must(aesgcm.GenerateKey(alg))
+		case iana.AlgorithmChaCha20Poly1305:
+			k = must(chacha20poly1305.GenerateKey())
+		default:
+			k = must(aesccm.GenerateKey(alg))
+		}
+		e := must(k.Encryptor())
+		tasks = append(tasks, task{fmt.Sprintf("Encrypt0/random-nonce/%d", alg), func(i int) []byte {
+			seen := map[string]bool{}
+			for j := 0; j < 4; j++ {
+				data := must((&cose.Encrypt0Message[[]byte]{Payload: in(i)}).EncryptAndEncode(e, nil))
+				m, err := cose.DecryptEncrypt0Message[[]byte](e, data, nil)
+				if err != nil || !bytes.Equal(m.Payload, in(i)) {
+					return []byte("decrypt-failed")
+				}
+				iv, _ := m.Unprotected.GetBytes(iana.HeaderParameterIV)
+				if len(iv) != e.NonceSize() || seen[string(iv)] {
+					return []byte("nonce-repeated-or-missized")
+				}
+				seen[string(iv)] = true
+			}
+			return []byte("ok")
+		}})
+	}
+	// key generation and random bytes of every length class from all goroutines
+	tasks = append(tasks, task{"GenerateKey+GetRandomBytes", func(i int) []byte {
+		a := key.GetRandomBytes(uint16(1 + i%40))
+		b := key.GetRandomBytes(uint16(1 + i%40))
+		if len(a) != 1+i%40 || (len(a) >= 8 && bytes.Equal(a, b)) {
+			return []byte("random-bytes-wrong")
+		}
+		k1, k2 := must(aesgcm.GenerateKey(iana.AlgorithmA128GCM)), must(hmac.GenerateKey(iana.AlgorithmHMAC_256_64))
+		if len(k1.Kid()) != 20 || len(k2.Kid()) != 20 {
+			return []byte("generated-key-wrong")
+		}
+		return []byte("ok")
+	}})
 
 	// a validator without FixedNow (the production configuration): it reads the clock on every call; claims far from
 	// "now" on either side so that the verdicts do not depend on when the run happens
